@@ -962,6 +962,283 @@ Example call_errors_nonvacuous :
   = Err ETypeError.
 Proof. repeat split; vm_compute; reflexivity. Qed.
 
+(** * 4. The side conditions of part B are invariants of the machine
+
+    `v_slen s = zlength (v_stack s)` and "the top frame records the running base pointer"
+    (so that the bp restored by a return is the caller's own bp) hold in the initial state and
+    are preserved by every instruction. *)
+
+Definition vm_wf (s : vm) : Prop :=
+  v_slen s = zlength (v_stack s)
+  /\ (exists fr frs, v_frames s = fr :: frs /\ f_bp fr = v_bp s)
+  /\ Forall (fun fr => 0 <= f_bp fr) (v_frames s).
+
+(* s' has the frames and base pointer of s, and the same length discrepancy *)
+Definition ctl_eq (s s' : vm) : Prop :=
+  v_frames s' = v_frames s /\ v_bp s' = v_bp s
+  /\ v_slen s' - zlength (v_stack s') = v_slen s - zlength (v_stack s).
+
+Lemma ctl_eq_refl : forall s, ctl_eq s s.
+Proof. intro s. unfold ctl_eq. auto. Qed.
+Lemma ctl_eq_trans : forall a b c, ctl_eq a b -> ctl_eq b c -> ctl_eq a c.
+Proof. unfold ctl_eq. intros a b c (A1 & A2 & A3) (B1 & B2 & B3). repeat split; congruence. Qed.
+Lemma ctl_eq_wf : forall s s', ctl_eq s s' -> vm_wf s -> vm_wf s'.
+Proof.
+  unfold ctl_eq, vm_wf. intros s s' (A1 & A2 & A3) (W1 & (fr & frs & W2 & W3) & W4).
+  rewrite A1, A2. split; [lia|]. split; [eauto|assumption].
+Qed.
+
+Lemma Ok_inj : forall {A} (a b : A), Ok a = Ok b -> a = b.
+Proof. intros A a b H. inversion H. reflexivity. Qed.
+
+Lemma bind_ok : forall {A B} (e : outcome A) (k : A -> outcome B) r,
+  bind e k = Ok r -> exists a, e = Ok a /\ k a = Ok r.
+Proof. intros A B e k r H. destruct e; try discriminate H. eauto. Qed.
+
+Section Invariant.
+  Variable orc : oracle.
+  Variable prog : program.
+
+  Lemma ce_upd_ip : forall s0 s a, ctl_eq s0 s -> ctl_eq s0 (upd_ip s a).
+  Proof. intros s0 s a H. exact H. Qed.
+  Lemma ce_upd_heap : forall s0 s h g, ctl_eq s0 s -> ctl_eq s0 (upd_heap s h g).
+  Proof. intros s0 s h g H. exact H. Qed.
+  Lemma ce_upd_globals : forall s0 s g, ctl_eq s0 s -> ctl_eq s0 (upd_globals s g).
+  Proof. intros s0 s g H. exact H. Qed.
+  Lemma ce_upd_final : forall s0 s v, ctl_eq s0 s -> ctl_eq s0 (upd_final s v).
+  Proof. intros s0 s v H. exact H. Qed.
+  Lemma ce_upd_out : forall s0 s o, ctl_eq s0 s -> ctl_eq s0 (upd_out s o).
+  Proof. intros s0 s o H. exact H. Qed.
+  Lemma ce_with_new : forall s0 s r, ctl_eq s0 s -> ctl_eq s0 (with_new s r).
+  Proof. intros s0 s [v h] H. unfold with_new. destruct (Pos.eqb _ _); exact H. Qed.
+  Lemma ce_push : forall s0 s v, ctl_eq s0 s -> ctl_eq s0 (push v s).
+  Proof.
+    intros s0 s v (A & B & C). unfold ctl_eq, push. vmsimpl. rewrite zlength_cons.
+    repeat split; auto. lia.
+  Qed.
+  Lemma ce_read_u8 : forall s0 s b s', ctl_eq s0 s -> read_u8 prog s = Ok (b, s') -> ctl_eq s0 s'.
+  Proof.
+    intros s0 s b s' H E. unfold read_u8 in E. destruct (byte_at prog (v_ip s)); inversion E; subst. exact H.
+  Qed.
+  Lemma ce_read_u16 : forall s0 s b s', ctl_eq s0 s -> read_u16 prog s = Ok (b, s') -> ctl_eq s0 s'.
+  Proof.
+    intros s0 s b s' H E. unfold read_u16 in E.
+    destruct (byte_at prog (v_ip s)); [|discriminate E].
+    destruct (byte_at prog (v_ip s + 1)); inversion E; subst. exact H.
+  Qed.
+  Lemma ce_pop : forall s0 s v s', ctl_eq s0 s -> pop s = Ok (v, s') -> ctl_eq s0 s'.
+  Proof.
+    intros s0 s v s' (A & B & C) E. unfold pop in E. destruct (v_stack s) as [|x st] eqn:St; inversion E; subst.
+    unfold ctl_eq. vmsimpl. rewrite zlength_cons in C. repeat split; auto. lia.
+  Qed.
+  Lemma ce_pop_n : forall n s0 s acc vs s', ctl_eq s0 s -> pop_n n s acc = Ok (vs, s') -> ctl_eq s0 s'.
+  Proof.
+    induction n; intros s0 s acc vs s' H E; cbn [pop_n] in E.
+    - inversion E; subst. exact H.
+    - apply bind_ok in E. destruct E as ([v s1] & E1 & E2). apply (IHn s0 s1 _ _ _ (ce_pop _ _ _ _ H E1) E2).
+  Qed.
+  Lemma ce_set_local : forall s0 s i v s', ctl_eq s0 s -> set_local i v s = Ok s' -> ctl_eq s0 s'.
+  Proof.
+    intros s0 s i v s' (A & B & C) E. unfold set_local in E.
+    destruct (v_bp s + i <? v_slen s); inversion E; subst. unfold ctl_eq. vmsimpl.
+    unfold zlength in *. rewrite replace_nth_length. auto.
+  Qed.
+  Lemma ce_binary : forall s0 s m s', ctl_eq s0 s -> binary orc m s = Ok s' -> ctl_eq s0 s'.
+  Proof.
+    intros s0 s m s' H E. unfold binary in E.
+    apply bind_ok in E. destruct E as ([rhs s1] & E1 & E).
+    apply bind_ok in E. destruct E as ([lhs s2] & E2 & E).
+    apply bind_ok in E. destruct E as (r & E3 & E). inversion E; subst.
+    apply ce_push, ce_with_new. eapply ce_pop; [eapply ce_pop|]; eauto.
+  Qed.
+  Lemma ce_fused : forall s0 s m s', ctl_eq s0 s -> fused orc prog m s = Ok s' -> ctl_eq s0 s'.
+  Proof.
+    intros s0 s m s' H E. unfold fused in E.
+    apply bind_ok in E. destruct E as ([li s1] & E1 & E).
+    apply bind_ok in E. destruct E as (lhs & E2 & E).
+    apply bind_ok in E. destruct E as ([ci s2] & E3 & E).
+    apply bind_ok in E. destruct E as (rhs & E4 & E).
+    apply bind_ok in E. destruct E as (r & E5 & E). inversion E; subst.
+    apply ce_push, ce_with_new. eapply ce_read_u16; [eapply ce_read_u16|]; eauto.
+  Qed.
+  Lemma ce_index_get : forall s0 s lhs idx s', ctl_eq s0 s -> index_get s lhs idx = Ok s' -> ctl_eq s0 s'.
+  Proof.
+    intros s0 s lhs idx s' H E. unfold index_get in E.
+    destruct idx; try discriminate E. destruct lhs; try discriminate E.
+    - apply bind_ok in E. destruct E as (t & E1 & E). apply bind_ok in E. destruct E as (i & E2 & E).
+      destruct (nth_error t (Z.to_nat i)); [|discriminate E]. apply Ok_inj in E. subst s'.
+      apply ce_push, ce_with_new, H.
+    - apply bind_ok in E. destruct E as (t & E1 & E). apply bind_ok in E. destruct E as (i & E2 & E).
+      destruct (nth_error t (Z.to_nat i)); inversion E; subst. apply ce_push, H.
+  Qed.
+  Lemma ce_index_set : forall s0 s lhs idx v s', ctl_eq s0 s -> index_set s lhs idx v = Ok s' -> ctl_eq s0 s'.
+  Proof.
+    intros s0 s lhs idx v s' H E. unfold index_set in E.
+    destruct idx; try discriminate E. destruct lhs; try discriminate E.
+    - apply bind_ok in E. destruct E as (t & E1 & E). apply bind_ok in E. destruct E as (i & E2 & E).
+      destruct v; try discriminate E.
+      apply bind_ok in E. destruct E as (repl & E3 & E). apply bind_ok in E. destruct E as (h' & E4 & E).
+      inversion E; subst. apply ce_push, ce_upd_heap, H.
+    - apply bind_ok in E. destruct E as (t & E1 & E). apply bind_ok in E. destruct E as (i & E2 & E).
+      apply bind_ok in E. destruct E as (h' & E4 & E).
+      inversion E; subst. apply ce_push, ce_upd_heap, H.
+  Qed.
+  Lemma ce_collect : forall s0 s extra s', ctl_eq s0 s -> collect prog s extra = Ok s' -> ctl_eq s0 s'.
+  Proof.
+    intros s0 s extra s' H E. destruct (collect_frame prog _ _ _ E) as (h' & g' & _ & ->).
+    apply ce_upd_heap, H.
+  Qed.
+
+  Lemma wf_pushframe : forall s ip bp s', vm_wf s -> 0 <= bp -> pushframe ip bp s = Ok s' ->
+    v_slen s' = zlength (v_stack s') -> vm_wf s'.
+  Proof.
+    intros s ip bp s' (W1 & (fr & frs & W2 & W3) & W4) Hbp E Hlen. unfold pushframe in E.
+    rewrite W2 in E. inversion E; subst s'. unfold vm_wf. vmsimpl. vmsimpl_in Hlen.
+    split; [exact Hlen|]. split; [eauto|].
+    rewrite W2 in W4. inversion W4; subst. repeat constructor; assumption.
+  Qed.
+
+  Lemma zlength_skipn : forall {A} (l : list A) k, (k <= length l)%nat -> zlength (skipn k l) = zlength l - Z.of_nat k.
+  Proof. intros A l k H. unfold zlength. rewrite skipn_length. lia. Qed.
+
+  Lemma wf_popframe : forall s s', vm_wf s -> popframe s = Ok s' -> vm_wf s'.
+  Proof.
+    intros s s' (W1 & (fr & frs & W2 & W3) & W4) E. unfold popframe in E. rewrite W2 in E.
+    destruct frs as [|cur rest]; [discriminate E|]. inversion E; subst s'; clear E.
+    rewrite W2 in W4. inversion W4 as [|? ? P1 P2]; subst.
+    unfold vm_wf. vmsimpl. split; [|split; [eauto|exact P2]].
+    destruct (Z.ltb_spec (f_bp fr) (v_slen s)); [|exact W1].
+    rewrite zlength_skipn by (unfold zlength in W1; lia). lia.
+  Qed.
+
+  Definition state_of (r : stepres) : vm := match r with Continue s => s | Halted _ s => s end.
+
+  (* take apart every `do x <- e; k = Ok r` hypothesis, and the case distinctions at the head *)
+  Ltac expand :=
+    repeat match goal with
+    | E : bind _ _ = Ok _ |- _ =>
+        let x := fresh "x" in let E' := fresh "E" in
+        apply bind_ok in E; destruct E as (x & E' & E);
+        match type of x with (_ * _)%type => destruct x as [? ?] | _ => idtac end; cbv beta iota in E
+    | E : Ok _ = Ok ?y |- _ => is_var y; apply Ok_inj in E; subst y
+    | E : match ?v with _ => _ end = Ok _ |- _ => destruct v eqn:?; try discriminate E
+    end.
+
+  (* follow the state through the primitive operations, collecting ctl_eq facts *)
+  Ltac chase :=
+    repeat match goal with
+    | R : ctl_eq ?s0 ?a, E : read_u8 _ ?a = Ok _ |- _ => pose proof (ce_read_u8 _ _ _ _ R E); clear E
+    | R : ctl_eq ?s0 ?a, E : read_u16 _ ?a = Ok _ |- _ => pose proof (ce_read_u16 _ _ _ _ R E); clear E
+    | R : ctl_eq ?s0 ?a, E : pop ?a = Ok _ |- _ => pose proof (ce_pop _ _ _ _ R E); clear E
+    | R : ctl_eq ?s0 ?a, E : pop_n _ ?a _ = Ok _ |- _ => pose proof (ce_pop_n _ _ _ _ _ _ R E); clear E
+    | R : ctl_eq ?s0 ?a, E : set_local _ _ ?a = Ok _ |- _ => pose proof (ce_set_local _ _ _ _ _ R E); clear E
+    | R : ctl_eq ?s0 ?a, E : binary _ _ ?a = Ok _ |- _ => pose proof (ce_binary _ _ _ _ R E); clear E
+    | R : ctl_eq ?s0 ?a, E : fused _ _ _ ?a = Ok _ |- _ => pose proof (ce_fused _ _ _ _ R E); clear E
+    | R : ctl_eq ?s0 ?a, E : index_get ?a _ _ = Ok _ |- _ => pose proof (ce_index_get _ _ _ _ _ R E); clear E
+    | R : ctl_eq ?s0 ?a, E : index_set ?a _ _ _ = Ok _ |- _ => pose proof (ce_index_set _ _ _ _ _ _ R E); clear E
+    | R : ctl_eq ?s0 ?a, E : collect _ ?a _ = Ok _ |- _ => pose proof (ce_collect _ _ _ _ R E); clear E
+    end.
+
+  Ltac ce_close :=
+    repeat first [ eassumption | apply ce_push | apply ce_with_new | apply ce_upd_heap | apply ce_upd_globals
+                 | apply ce_upd_final | apply ce_upd_out | apply ce_upd_ip
+                 | match goal with |- ctl_eq _ (if ?b then _ else _) => destruct b end ].
+
+  Theorem step_preserves_wf : forall s r, vm_wf s -> step orc prog s = Ok r -> vm_wf (state_of r).
+  Proof.
+    intros s r W E. unfold step in E.
+    destruct (byte_at prog (v_ip s)) as [b|]; [|discriminate E].
+    destruct (opcode_of_byte b) as [op|]; [|discriminate E].
+    assert (R0 : ctl_eq s (upd_ip s (v_ip s + 1))) by exact (ce_upd_ip _ _ _ (ctl_eq_refl s)).
+    cbv zeta in E. set (s1 := upd_ip s (v_ip s + 1)) in *. clearbody s1.
+    destruct op; cbv beta iota in E; expand; cbn [state_of];
+      try (apply (ctl_eq_wf s); [|exact W]; chase; ce_close; fail).
+    - (* Return *)
+      match goal with E : popframe s1 = Ok ?y |- _ =>
+        pose proof (wf_popframe _ _ (ctl_eq_wf _ _ R0 W) E) as W2; pose proof (ctl_eq_refl y) end.
+      eapply ctl_eq_wf; [|exact W2]. chase. ce_close.
+    - (* ReturnValue *)
+      chase.
+      match goal with R : ctl_eq s ?a, E : popframe ?a = Ok ?y |- _ =>
+        pose proof (wf_popframe _ _ (ctl_eq_wf _ _ R W) E) as W2; pose proof (ctl_eq_refl y) end.
+      eapply ctl_eq_wf; [|exact W2]. chase. ce_close.
+    - (* Call *)
+      chase.
+      match goal with
+      | R : ctl_eq s ?a, E : pushframe ?ip ?bp (upd_stack ?a ?st ?len) = Ok ?y,
+        C1 : (?n <? ?argc) = false, C3 : (v_slen ?a <? ?argc) = false |- _ =>
+          apply Z.ltb_ge in C1; apply Z.ltb_ge in C3;
+          pose proof (ctl_eq_wf _ _ R W) as W2;
+          assert (W3 : vm_wf (upd_stack a st len))
+      end.
+      { destruct W2 as (A & B & C). unfold vm_wf. vmsimpl. split; [|auto].
+        rewrite zlength_app. unfold zlength at 1. rewrite repeat_val_length. lia. }
+      match goal with E : pushframe _ _ ?s3 = Ok _ |- _ =>
+        eapply wf_pushframe; [exact W3| |exact E|];
+        [lia|unfold pushframe in E; destruct (v_frames s3); inversion E; subst; vmsimpl; apply W3] end.
+  Qed.
+End Invariant.
+
+Lemma vm_new_wf : vm_wf vm_new.
+Proof.
+  unfold vm_wf, vm_new. vmsimpl. split; [reflexivity|]. split; [eexists _, _; split; reflexivity|].
+  repeat constructor. cbn. lia.
+Qed.
+
+Lemma vm_start_wf : forall s consts h, vm_wf (vm_start s consts h).
+Proof.
+  intros. unfold vm_wf, vm_start. vmsimpl. split; [reflexivity|]. split; [eexists _, _; split; reflexivity|].
+  repeat constructor. cbn. lia.
+Qed.
+
+(* hence, in every state reachable by running a program, the hypotheses of call_frame and
+   return_restores about v_slen hold, and the frame the call saves carries the caller's bp *)
+Corollary call_saves_callers_bp : forall s ip n argc args_rev rest cur frs,
+  vm_wf s -> v_frames s = cur :: frs ->
+  v_frames (called s ip n argc args_rev rest cur frs)
+  = mkFrame ip (zlength rest) :: mkFrame (v_ip s + 2) (v_bp s) :: frs.
+Proof.
+  intros s ip n argc args_rev rest cur frs (_ & (fr & frs' & E & B) & _) Hf.
+  rewrite Hf in E. inversion E; subst. unfold called. vmsimpl. rewrite B. reflexivity.
+Qed.
+
+(* the round trip in a well-formed machine: the caller gets its own base pointer back *)
+Corollary call_return_roundtrip_wf : forall orc prog s0 argc ip n args_rev rest cur frs s result above s',
+  vm_wf s0 ->
+  v_frames s0 = cur :: frs ->
+  v_frames s = v_frames (called s0 ip n argc args_rev rest cur frs) ->
+  byte_at prog (v_ip s) = Some (byte_of_opcode OReturnValue) ->
+  v_stack s = result :: above ++ rest -> vm_wf s ->
+  step orc prog s = Ok (Continue s') ->
+  v_stack s' = result :: rest /\ v_ip s' = v_ip s0 + 2 /\ v_bp s' = v_bp s0
+  /\ v_frames s' = mkFrame (v_ip s0 + 2) (v_bp s0) :: frs
+  /\ v_globals s' = v_globals s /\ v_out s' = v_out s.
+Proof.
+  intros orc prog s0 argc ip n args_rev rest cur frs s result above s' W0 Hf0 Hf H Hst W Hstep.
+  destruct W as (Hlen & _).
+  destruct (call_return_roundtrip orc prog s0 argc ip n args_rev rest cur frs s result above s'
+              Hf0 Hf H Hst Hlen Hstep) as (A & B & C & D & E & F).
+  destruct W0 as (_ & (fr & frs' & E0 & B0) & _). rewrite Hf0 in E0. inversion E0; subst fr frs'.
+  rewrite B0 in C, D. auto 10.
+Qed.
+
+(* an instruction that reports an error hands back the state it started from: the dispatch
+   loop returns the machine as it was before the failing instruction *)
+Lemma step_err_keeps_state : forall orc prog s k b,
+  step orc prog s = Err k -> run_loop orc prog (S b) s = (Err k, s, b).
+Proof. intros orc prog s k b H. cbn [run_loop]. rewrite H. reflexivity. Qed.
+
+Example activations_disjoint_nonvacuous :
+  let s' := called ex_call_state 3 3 2 [VInt 20; VInt 10] [VInt 8; VInt 7] (mkFrame 0 0) [] in
+  slot s' 0 = Some (VInt 7) /\ slot s' 1 = Some (VInt 8)
+  /\ slot s' 2 = Some (VInt 10) /\ slot s' 3 = Some (VInt 20) /\ slot s' 4 = Some VNull
+  /\ v_bp s' = 2
+  /\ match set_local 2 (VInt 99) s' with
+     | Ok s'' => v_stack s'' = [VInt 99; VInt 20; VInt 10; VInt 8; VInt 7]
+     | _ => False
+     end.
+Proof. vm_compute. repeat split; reflexivity. Qed.
+
 Print Assumptions fused_generic3.
 Print Assumptions generic3_steps.
 Print Assumptions fused_step_equiv.
@@ -977,3 +1254,5 @@ Print Assumptions call_return_roundtrip.
 Print Assumptions popframe_suffix.
 Print Assumptions activations_disjoint.
 Print Assumptions nested_activations_disjoint.
+Print Assumptions step_preserves_wf.
+Print Assumptions call_return_roundtrip_wf.
